@@ -539,6 +539,14 @@ Definition holdings (st : stk) (del : Z) : Z :=
   sum_z (map (dlg_value st) (filter (fun d => d_del d =? del) (s_dels st)))
   + sum_z (map (fun u => sum_z (u_entries u)) (filter (fun u => u_del u =? del) (s_ubds st))).
 
+(* the delegations of [del] at validators whose exchange rate is not one token per share *)
+Definition inexact_dels (st : stk) (del : Z) : Z :=
+  Z.of_nat (List.length (filter (fun d => (d_del d =? del)
+                                          && match find_val (d_val d) (s_vals st) with
+                                             | Some v => negb (v_shares v =? v_tokens v * P)
+                                             | None => false
+                                             end) (s_dels st))).
+
 Fixpoint dedup (l : list Z) : list Z :=
   match l with [] => [] | x :: t => if existsb (Z.eqb x) t then dedup t else x :: dedup t end.
 Definition backers (os : list origin) : list Z := dedup (map o_del os).
@@ -560,10 +568,13 @@ Definition escrow_spec (st0 st1 : stk) (origins : list origin) (amt : Z) (recd :
   ++ spec_if (s_escrow st1 - s_escrow st0 =? amt + fee_escrow) "escrow: tokens moved into dispute escrow differ from the slash amount"
   ++ spec_if ((s_bonded st0 + s_notbonded st0) - (s_bonded st1 + s_notbonded st1) =? amt + fee_pools)
              "escrow: tokens leaving the staking pools differ from the slash amount"
-  ++ spec_if (forallb (fun d => holdings st0 d - holdings st1 d =? amt_of d recd) bs)
+  (* [holdings] values a delegation at the whole tokens its shares are worth: at a validator whose exchange rate is not
+     one (it was slashed before) that value is a rounded-down fraction before and after, so the difference of the two
+     can be one unit off the tokens actually taken, per such delegation (the tokens moved are pinned exactly above) *)
+  ++ spec_if (forallb (fun d => Z.abs (holdings st0 d - holdings st1 d - amt_of d recd) <=? inexact_dels st0 d) bs)
              "escrow: a backer's loss differs from what is recorded for it"
   ++ spec_if (forallb (fun d => Z.abs ((holdings st0 d - holdings st1 d) * T - amt_of d origins * amt)
-                                <=? (count_of d origins + (if d =? last_del origins then n else 0)) * T) bs)
+                                <=? (count_of d origins + (if d =? last_del origins then n else 0) + inexact_dels st0 d) * T) bs)
              "escrow: a backer's loss is not its pro-rata share of the slash"
   ++ spec_if (list_eqb dlg_eqb (filter (fun d => negb (existsb (Z.eqb (d_del d)) bs)) (s_dels st0))
                                (filter (fun d => negb (existsb (Z.eqb (d_del d)) bs)) (s_dels st1))
